@@ -1,6 +1,11 @@
 // Shared harness plumbing: failure type, stats/evidence, case files, CPU watchdog, command line.
 // No dependency on the library under test.
 #pragma once
+#if defined(__has_feature)
+#if __has_feature(address_sanitizer)
+#include <sanitizer/common_interface_defs.h>
+#endif
+#endif
 #include <cstdint>
 #include <cstdio>
 #include <cstdlib>
@@ -192,6 +197,11 @@ inline void parse_args(int argc, char **argv) {
 inline void on_vtalrm(int) {
     const char m[] = "\nWATCHDOG: per-case CPU budget exceeded (possible unbounded loop)\n";
     ssize_t r = write(2, m, sizeof m - 1); (void)r;
+#if defined(__has_feature)
+#if __has_feature(address_sanitizer)
+    if(getenv("VERIF_WATCHDOG_STACK")) __sanitizer_print_stack_trace(); // triage aid: where the CPU time went
+#endif
+#endif
     _exit(14);
 }
 inline void arm_watchdog(long seconds) {
